@@ -162,6 +162,9 @@ def build_prior(case):
             pars_in = {"empty_dict": {}, "empty_list": [], "empty_tuple": ()}[case["pars_as"]]
         else:
             pars_in = pars
+        if case.get("offsets_as") == "dup_first" and len(v0_offsets) >= 2:
+            # two entries sharing one name: the second offset prior is missing
+            v0_offsets = [v0_offsets[0]] * len(v0_offsets)
         if case.get("offsets_as") == "number":
             return tj.JokerPrior(pars=pars_in, poly_trend=pt_, v0_offsets=5, model=model)
         if case.get("model_as") == "string":
@@ -177,7 +180,42 @@ def build_prior(case):
         return tj.JokerPrior(pars=pars_in, poly_trend=pt_, v0_offsets=v0_offsets, model=model)
 
 
+def check_prior_alias(case, part):
+    """the prior keeps its own copy of the offsets handed over as a list: changing that list afterwards changes nothing"""
+    import pymc as pm
+    import thejoker as tj
+    import thejoker.units as xu
+    import astropy.units as u
+
+    pt_, no = case["poly_trend"], case["n_offsets"]
+    lin, offs = lin_names(pt_, no)
+    with pm.Model() as model:
+        pars = {}
+        lst = []
+        for name in NONLINEAR + lin + offs:
+            var = xu.with_unit(make_var(name, "default"), good_unit(name))
+            (lst if name in offs else pars.__setitem__(name, var) or [])  # noqa
+            if name in offs:
+                lst.append(var)
+        try:
+            prior = tj.JokerPrior(pars=pars, poly_trend=pt_, v0_offsets=lst, model=model)
+        except Exception as e:
+            part.violation(case, f"a valid prior specification was refused: {type(e).__name__}: {e}")
+            return
+        names0, n0 = list(prior.par_names), prior.n_offsets
+        # the caller goes on using the list (e.g. to build a second prior with one more survey)
+        lst.append(xu.with_unit(pm.Uniform(f"dv0_{no + 1}", -5, 5), u.km / u.s))
+        if case["then"] == "clear":
+            del lst[:]
+    part.record(case, outcome=(n0, prior.n_offsets), nontrivial=True)
+    if prior.n_offsets != n0 or list(prior.par_names) != names0 or len(prior.v0_offsets) != n0:
+        part.violation(case, "a JokerPrior changed after it was built because the caller modified the list of offsets it had passed in",
+                       expected=(n0, names0), observed=(prior.n_offsets, list(prior.par_names), len(prior.v0_offsets)))
+
+
 def check_prior(case, part):
+    if case.get("alias"):
+        return check_prior_alias(case, part)
     pt_, no = case["poly_trend"], case["n_offsets"]
     lin, offs = lin_names(pt_, no)
     must_accept = case["accept"]
@@ -492,6 +530,11 @@ def build_cases(quick):
                 cases.append(dict(kind="prior", poly_trend=pt_, n_offsets=no, mut=[m], accept=False, pars_as=pars_as))
         bad = single_mutilations(pt_, no)
         good = valid_variations(pt_, no)
+        if no:
+            for then in ("append", "clear"):
+                cases.append(dict(kind="prior", poly_trend=pt_, n_offsets=no, mut=[], accept=True, alias=True, then=then))
+        if no >= 2:
+            cases.append(dict(kind="prior", poly_trend=pt_, n_offsets=no, mut=[], accept=False, offsets_as="dup_first"))
         if no:
             for oa in ("tuple", "iter", "gen"):
                 cases.append(dict(kind="prior", poly_trend=pt_, n_offsets=no, mut=[], accept=True, offsets_as=oa))
